@@ -182,6 +182,11 @@ def generate(rng, tier):
         elif kind == "dangling":
             symlinks["out/" + n] = "../data/nothing-" + n
     files["out/bystander.txt"] = "bystander\n"
+    # unrelated files whose names are derived from the names the save writes (what a temp-file / backup scheme
+    # would pick): they must never be touched
+    for n in rng.sample(names, min(len(names), rng.randint(0, 2))):
+        dn = rng.choice([n + ".tmp", n + ".bak", n + "~", "." + n, n + ".new", n + ".swp", "." + n + ".tmp", n + ".lock", n + ".orig", n + ".part"])
+        files.setdefault("out/" + dn, "decoy %s\n" % dn)
     w = {"dirs": dirs, "files": files, "symlinks": symlinks, "cwd": rng.choice(["run", "run", "out", "src"]), "env": {}}
     if rng.random() < 0.06:
         w["dirmodes"] = {"out": 0o555}
@@ -366,8 +371,12 @@ def save_and_judge(sc, root, faults):
                 if b is not None and b[0] in ("file",) and a != b:
                     ctx.violation("no-silent-overwrite", dict(base, cause=cause or "success", effect=_effect({k: (b, a)}, before)), "overwrite=False but existing file %s changed: %r -> %r (save outcome %s %s)" % (k, b, a, o.brief(), o.text[:200]))
                     break
-        # nothing outside target + declared sub-files may ever be touched
+        # an EXISTING file that is neither the target nor a declared sub-file must never be modified or removed;
+        # a NEW stray file is only held against the save when it succeeded or failed because of the configuration
+        # (after an injected OS error the statement promises nothing about left-overs, e.g. of a temp-file scheme)
         for k in sorted(ch):
+            if ch[k][0] is None and cause in ("fault-os", "fault-undeclared", "env"):
+                continue
             if k not in allowed and not (k.startswith("data/linked-") or k.startswith("data/nothing-")):
                 ctx.violation("touched-undeclared-path", dict(base, cause=cause or "success", effect=_effect({k: ch[k]}, before)), "save changed %s which is neither the target nor a declared sub-file: %r" % (k, ch[k]))
                 break
